@@ -205,6 +205,33 @@ func c20(c *Ctx) {
 							}
 							fromR = won
 						}
+						// the start address is exactly the start of what was reserved: (result of the add) − (the amount added),
+						// or the value the compare-and-swap replaced
+						if isUintptr(pt.v.Type()) && fromR {
+							kk := NewKeyer(holder)
+							got, want := map[string]int64{}, map[string]int64{}
+							var gc, wc int64
+							linForm(kk, pt.v, 1, got, &gc, 0)
+							if casMode {
+								linForm(kk, casOld, 1, want, &wc, 0)
+							} else {
+								linForm(kk, rmw, 1, want, &wc, 0)
+								linForm(kk, rmw.Call.Args[1], -1, want, &wc, 0)
+							}
+							same := gc == wc
+							for key, c := range got {
+								if want[key] != c {
+									same = false
+								}
+							}
+							for key, c := range want {
+								if got[key] != c {
+									same = false
+								}
+							}
+							r.Check(same, "C20.R1", cons+" is the start of the reservation", p.Pos(posOf(ret)), "start = reserved end − size (or the replaced cursor value)",
+								"the address handed out is not the first byte of what this call reserved (reserved end minus the reserved size): the region overlaps the next requester's or lies outside the reserve")
+						}
 						r.Check(fromR && !fromL, "C20.R1", cons, p.Pos(posOf(ret)), "region base derives from the atomic reservation result",
 							"the region handed out is computed from a value loaded before the atomic reservation (or not from the reservation at all): two concurrent requesters that load the same cursor value receive the same region")
 					}
